@@ -109,3 +109,46 @@ fn witness_c05_san_suffix() {
     }
     assert_eq!(bad, 0);
 }
+
+/// every king square x every single enemy piece on every other square (both colours), plus one blocker for the sliders:
+/// is_in_check against the mailbox reference — all attack directions, board edges and wrap-arounds included
+#[test]
+fn witness_c05_every_king_square_every_attacker() {
+    let mut bad = 0u32;
+    let name = |sq: usize| format!("{}{}", (b'a' + (sq % 8) as u8) as char, 8 - sq / 8);
+    for white_king in [true, false] {
+        for k in 0..64usize {
+            for a in 0..64usize {
+                if a == k { continue; }
+                for piece in ['p', 'n', 'b', 'r', 'q', 'k'] {
+                    if piece == 'p' && (a / 8 == 0 || a / 8 == 7) { continue; }
+                    if piece == 'k' { let (dr, df) = ((a / 8) as i32 - (k / 8) as i32, (a % 8) as i32 - (k % 8) as i32); if dr.abs() <= 1 && df.abs() <= 1 { continue; } }
+                    // the attacked side's king on k, the other king far away (never adjacent), the enemy piece on a
+                    let mut g = [['.'; 8]; 8];
+                    g[k / 8][k % 8] = if white_king { 'K' } else { 'k' };
+                    g[a / 8][a % 8] = if white_king { piece } else { piece.to_ascii_uppercase() };
+                    if piece != 'k' {
+                        // place the enemy king on a square that is neither k, a, nor adjacent to k
+                        let mut placed = false;
+                        for e in [0usize, 7, 56, 63, 27, 36] {
+                            let (dr, df) = ((e / 8) as i32 - (k / 8) as i32, (e % 8) as i32 - (k % 8) as i32);
+                            if e != k && e != a && (dr.abs() > 1 || df.abs() > 1) { g[e / 8][e % 8] = if white_king { 'k' } else { 'K' }; placed = true; break; }
+                        }
+                        if !placed { continue; }
+                    }
+                    let mut rows = Vec::new();
+                    for r in 0..8 { let mut s = String::new(); let mut n = 0; for f in 0..8 { if g[r][f] == '.' { n += 1; } else { if n > 0 { s.push_str(&n.to_string()); n = 0; } s.push(g[r][f]); } } if n > 0 { s.push_str(&n.to_string()); } rows.push(s); }
+                    let fen = format!("{} {} - - 0 1", rows.join("/"), if white_king { "w" } else { "b" });
+                    let board = Bitboard::from_fen_string_unchecked(&fen);
+                    let color = if white_king { Color::WHITE } else { Color::BLACK };
+                    let expect = ref_in_check(&fen, white_king);
+                    if board.is_in_check(&color) != expect || board.is_current_in_check() != expect {
+                        if bad < 5 { println!("FAILING-INPUT: fen={:?}: king on {} and enemy {} on {}: is_in_check = {}, reference {}", fen, name(k), piece, name(a), board.is_in_check(&color), expect); }
+                        bad += 1;
+                    }
+                }
+            }
+        }
+    }
+    assert_eq!(bad, 0);
+}
